@@ -619,15 +619,19 @@ func (s *SQLiteStore) enqueueWithLimit(env Envelope, headersJSON any, traceJSON 
 
 	if count >= s.maxDepth {
 		if s.dropPolicy == "drop_oldest" {
-			dropped, err := s.dropOldestQueued(ctx, conn)
-			if err != nil {
-				return err
+			// Make room for the new item; loop (like EnqueueBatch) because an
+			// operator requeue/resume may have lifted the queue above max_depth.
+			for count >= s.maxDepth {
+				dropped, err := s.dropOldestQueued(ctx, conn)
+				if err != nil {
+					return err
+				}
+				if !dropped {
+					s.queueLikelyFull.Store(true)
+					return ErrQueueFull
+				}
+				count--
 			}
-			if !dropped {
-				s.queueLikelyFull.Store(true)
-				return ErrQueueFull
-			}
-			count--
 		} else {
 			s.queueLikelyFull.Store(true)
 			return ErrQueueFull
